@@ -553,6 +553,33 @@ fn direct_battery(rep: &mut Report) {
     }
     rep.events += log.len() as u64;
   }
+  // a guard over a composite that happens to be idle (no child yet, or all children finished:
+  // vacuously closed) when the guard is dropped: the drop is still the unsubscription, so a child
+  // appended afterwards through another handle is torn down at once and every handle reports closed
+  for threads in [false, true] {
+    rep.evaluations += 1;
+    rep.count("direct_subscription_cases", 1);
+    rep.set("subscription_types_covered", "SubscriptionGuard");
+    let log = Log::new();
+    let ty = if threads { "SubscriptionGuard<MultiSubscriptionThreads>" } else { "SubscriptionGuard<MultiSubscription>" };
+    let (closed_after, late_unsubs) = if threads {
+      let comp = MultiSubscriptionThreads::default();
+      let mut other = comp.clone();
+      drop(comp.unsubscribe_when_dropped());
+      other.append(BoxSubscriptionThreads::new(Tracked { id: 21, log: log.clone() }));
+      (other.is_closed(), log.marks(21, "child_unsub").len())
+    } else {
+      let comp = MultiSubscription::default();
+      let mut other = comp.clone();
+      drop(comp.unsubscribe_when_dropped());
+      other.append(BoxSubscription::new(Tracked { id: 21, log: log.clone() }));
+      (other.is_closed(), log.marks(21, "child_unsub").len())
+    };
+    rep.events += log.len() as u64 + 1;
+    if !closed_after || late_unsubs != 1 {
+      fail(rep, "late_append_left_running", ty, format!("a guard over a composite without children yet was dropped; a child appended afterwards through a clone was unsubscribed {} times and the clone reports closed={}", late_unsubs, closed_after));
+    }
+  }
   // the handle of subscribe_on / delay_subscription whose subscribing task died half way: the
   // first branch of a merge (a live subject) is wired when the second branch, user code in a
   // `create`, panics. The scheduler keeps the payload inside the handle; the subject branch
